@@ -319,6 +319,9 @@ class CursorTranslator(Translator):
             if fn == "__uint32_identity":
                 return v
             return E("rdBE32 %s %s" % (nat[0], nat[1].p()), 0, (1 << 32) - 1)
+        if fn == "free" and self.spec.get("named_free"):
+            st["events"].append('("free:%s", [])' % self.dst_name(args[0], st)[1])
+            return lit(0)
         if fn == "malloc":
             sz = self.as_int(self.rvalue(args[0], st))
             st["events"].append('("malloc", [%s])' % sz.s)
